@@ -23,10 +23,13 @@ m = {
         {'name': 'kani-scratch', 'path': 'kanirun.py + kani/*.rs',
          'serves_properties': [p for p in ALL if p in checks.CHECKS and checks.CHECKS[p].get('kani')],
          'kind_free_text': 'Kani/CBMC harnesses on a scratch copy of the real crate; loop-free full-domain harnesses are complete proofs, others are labelled bounded'},
+        {'name': 'bounded-grid', 'path': 'gridrun.py + grid/*.rs',
+         'serves_properties': [p for p in ALL if p in checks.CHECKS and checks.CHECKS[p].get('grid')],
+         'kind_free_text': 'bounded stand-in, never counted as proof: the real crate (scratch copy of the tree under test) is executed through its public API over a stated finite input grid and judged by an oracle written from the property statement; runs when the contract proof is undecided on the tree under test, when an obligation failed (to attach a concrete failing input) and in the thorough tier'},
     ],
     'checks': [],
     'not_applicable': [],
-    'notes': 'See DESIGN.md. Exit 2 from a check means UNDECIDED (anchor lost / construct rejected / resource limit), never a violation.',
+    'notes': 'See DESIGN.md. Exit 2 from a check means UNDECIDED (anchor lost / construct rejected / resource limit), never a violation. Where a property has a bounded stand-in (grid), an undecided proof on a changed tree is followed by the grid: a failing case is a VIOLATION with a concrete input, no failing case prints OK-BOUNDED and exits 0 (the property held on everything explored; the evidence says bounded).',
 }
 for p in ALL:
     if p in checks.CHECKS:
@@ -40,7 +43,7 @@ for p in ALL:
             'engine': 'kani-scratch' if (c.get('kani') and not c['verus_units']) else 'verus-extract',
             'level_claimed': {'category': c.get('level', 'proof'), 'text': c['claim'], 'design_ref': c.get('design_ref', 'DESIGN.md section 6 / ' + p)},
             'level_note': c['note'],
-            'technique': c['technique'],
+            'technique': c['technique'] + ('; bounded stand-in (labelled bounded, not counted as proved): executed input grid grid/%s.rs with an oracle from the property statement - %s' % (c['grid']['sets'][0], c['grid']['bound']) if c.get('grid') else ''),
         })
     else:
         m['not_applicable'].append({'property_id': p, 'reason': checks.NOT_APPLICABLE.get(p, 'not yet under contract in this build (see DESIGN.md)')})
